@@ -194,7 +194,8 @@ Definition ms_start_task (st : ms_mstate) (addr : N) (t : ms_task) : ms_mstate *
   let now := ms_m_now st in
   match t with
   | MsTLink p =>
-      (ms_set_phase st (MsPRun (MsRLink addr p (now + ms_rto_of st addr))), [MsOTxLink now addr])
+      (ms_set_phase st (MsPRun (MsRLink addr p (now + ms_rto_of st addr))),
+       [MsOTxLink now addr (match p with None => true | Some _ => false end)])
   | _ =>
       let seq0 := match ms_find_assoc addr (ms_m_assocs st) with Some a => ms_a_seq a | None => 0%N end in
       let started := [MsOStart now addr (ms_task_type t) (ms_task_fc t) seq0] in
@@ -236,7 +237,8 @@ Definition ms_fail_running (st : ms_mstate) (e : ms_err) : ms_mstate * list ms_o
       let '(st1, o) := ms_update_assoc st dest (ms_task_error now t e false) in
       (st1, o ++ [MsOFail now dest (ms_task_type t) e])
   | MsPRun (MsRLink dest p _) =>
-      (st, match p with Some tok => [MsORes now tok (Some e)] | None => [] end)
+      (st, match p with Some tok => [MsORes now tok (Some e)] | None => [] end
+           ++ [MsOLinkEnd now dest])
   | _ => (st, [])
   end.
 
@@ -289,7 +291,8 @@ Definition ms_rx_nonread (st : ms_mstate) (dest : N) (t : ms_task) (k : ms_ttype
         | Some a =>
             (* the accepted response is confirmed when it asks for it (repair 86bdefd) *)
             let confirm := if ms_r_con f then [MsOTx now (ms_confirm_sol_bytes seq)] else [] in
-            let a1 := ms_process_iin f a in
+            let '(a1, seen) := ms_process_iin now f a in
+            let confirm := confirm ++ seen in
             let '(a2, o, h) := ms_nonread_handle now (ms_m_systime st) t f a1 in
             let st1 := ms_set_assocs st (ms_put_assoc a2 (ms_m_assocs st)) in
             match h with
@@ -333,14 +336,14 @@ Definition ms_rx_read (st : ms_mstate) (dest : N) (t : ms_task) (seq : N) (first
         match ms_find_assoc dest (ms_m_assocs st) with
         | None => (st, [])
         | Some a =>
-            let a1 := ms_process_iin f a in
+            let '(a1, seen) := ms_process_iin now f a in
             let st1 := ms_set_assocs st (ms_put_assoc a1 (ms_m_assocs st)) in
             if negb (ms_r_ok f) then
               let '(st2, o) := ms_update_assoc st1 dest (ms_task_error now t MsEMalformed false) in
               let '(st3, o2) := ms_task_done st2 in
-              (st3, o ++ [MsOFail now dest k MsEMalformed] ++ o2)
+              (st3, seen ++ o ++ [MsOFail now dest k MsEMalformed] ++ o2)
             else
-              let delivered := [MsOCb now dest (ms_read_type t) (ms_r_nvalues f)] in
+              let delivered := seen ++ [MsOCb now dest (ms_read_type t) (ms_r_nvalues f)] in
               let confirm := if ms_r_con f then [MsOTx now (ms_confirm_sol_bytes seq)] else [] in
               if ms_r_fin f then
                 let '(st2, o) := ms_update_assoc st1 dest (ms_read_complete now t) in
@@ -358,7 +361,8 @@ Definition ms_rx_read (st : ms_mstate) (dest : N) (t : ms_task) (seq : N) (first
 Definition ms_rx_link (st : ms_mstate) (dest : N) (p : option N) (src : N) (r : ms_rx)
   : ms_mstate * list ms_obs :=
   let now := ms_m_now st in
-  let res := match p with Some tok => [MsORes now tok (Some MsEUnexpectedHeaders)] | None => [] end in
+  let res := match p with Some tok => [MsORes now tok (Some MsEUnexpectedHeaders)] | None => [] end
+             ++ [MsOLinkEnd now dest] in
   match r with
   | MsRxBad => let '(st1, o) := ms_task_done st in (st1, res ++ o)
   | MsRxResp f =>
@@ -411,7 +415,8 @@ Definition ms_fire (st : ms_mstate) : ms_mstate * list ms_obs :=
       let '(st2, o2) := ms_task_done st1 in
       (st2, o ++ [MsOFail now dest (ms_task_type t) MsETimeout] ++ o2)
   | MsPRun (MsRLink dest p _) =>
-      let res := match p with Some tok => [MsORes now tok (Some MsETimeout)] | None => [] end in
+      let res := match p with Some tok => [MsORes now tok (Some MsETimeout)] | None => [] end
+                 ++ [MsOLinkEnd now dest] in
       let '(st1, o) := ms_task_done st in (st1, res ++ o)
   | _ => (st, [])
   end.
@@ -477,7 +482,7 @@ Definition ms_mstep (fuel : nat) (st : ms_mstate) (ev : ms_event) : ms_mstate * 
       | None =>
           let st1 := ms_set_ring (ms_set_assocs st (ms_insert_assoc (ms_assoc_new addr c (ms_m_now st)) (ms_m_assocs st)))
                               (ms_m_ring st ++ [addr]) in
-          ms_after_message st1
+          let '(st2, o) := ms_after_message st1 in (st2, MsOAssoc (ms_m_now st) addr c :: o)
       end
   | MsEUser a tok k =>
       let '(st1, o) := ms_update_assoc st a (ms_queue_task (ms_m_now st) (ms_connected st) (ms_user_task tok k)) in
